@@ -62,6 +62,23 @@ func (c11) Gen(seed uint64, tier string) *Scenario {
 		m.Kind = "readonly"
 	}
 	sc := &Scenario{Prop: "C11"}
+	if rc := Sub(seed, "c11-chdir"); rc.Bool(0.05) {
+		// one process without --repository whose program changes the working directory
+		// and prints nothing: the (relative) --out file must be gone afterwards and no
+		// other file may be touched
+		m.Kind = "readonly"
+		m.Rows = []int{2}
+		sc.Files = []FileSpec{{Name: "t0.csv", Content: counterTable(2)}, {Name: "sub", Dir: true}, {Name: "sub/out0.txt", Content: "keep\n"}, {Name: "sub/t0.csv", Content: counterTable(3)}, {Name: "out1.txt", Content: "keep too\n"}}
+		m.Txns = [][]TxnSpec{nil}
+		m.Prefixes = []string{"VAR @c := (SELECT COUNT(*) FROM t0);"}
+		m.Extras = []string{"CHDIR `sub`;\nVAR @d := (SELECT COUNT(*) FROM t0);" + rc.PickS("", "", "\nEXIT 2;", "\nSELECT * FROM no_such_table;", "\nCHDIR `..`;\nVAR @e := (SELECT MAX(n) FROM t0);", "\nSELECT 1 / 0 FROM t0 WHERE FALSE;")}
+		sc.Procs = []ProcSpec{{OutFile: rc.PickS("out0.txt", "out0.txt", "./out0.txt", "sub/../out0.txt"), CPU: 1, WaitTimeoutS: 10.0000001, RetryDelayNs: 10001009, Format: "CSV", Quiet: true}}
+		renderC11(sc, m)
+		sc.Knobs = Knobs{RowStride: 1, Pool: "lifo", RelRepo: true}
+		sc.Sched = GenSched(seed, 1, 150)
+		sc.MaxSteps = 40000
+		return sc
+	}
 	ntab := r.Pick(1, 2, 2, 3)
 	for i := 0; i < ntab; i++ {
 		rows := r.Range(1, 3)
@@ -418,8 +435,23 @@ func judgeLeftovers(o *Outcome, prop string, sc *Scenario, meta *c11Meta, res *R
 			o.Stats.probe("created-not-committed")
 		}
 	}
+	// an --out file into which nothing was written does not stay behind
+	for i, ps := range sc.Procs {
+		if ps.OutFile == "" {
+			continue
+		}
+		name := filepath.Clean(ps.OutFile)
+		if f, exists := res.Final[name]; exists && len(f.Data) == 0 {
+			o.viol(prop, "out-file", "empty-out-file-left", fmt.Sprintf("run %d: p%d wrote nothing to its --out file %s, which is still there (empty) after the process has ended (%s)", runIdx, i, ps.OutFile, outputsShort(res)[i]))
+		} else if !exists {
+			o.Stats.probe("empty-out-file-removed")
+		}
+	}
 	if meta.Kind == "readonly" {
 		for _, f := range sc.Files {
+			if f.Dir {
+				continue
+			}
 			got, ok := res.Final[f.Name]
 			if !ok {
 				o.viol(prop, "read-only", "readonly-file-missing", fmt.Sprintf("run %d: %s disappeared although every program only reads", runIdx, f.Name))
